@@ -17,6 +17,7 @@ import SqiProofs.C17.Div
 import SqiProofs.C17.Gcd
 import SqiProofs.C17.Sqrt3
 import SqiProofs.C17.Rand
+import SqiProofs.C17.RandCover
 import SqiProofs.C17.Cornacchia
 import SqiProofs.C17.Conv
 import SqiProofs.C17.Kernel
@@ -336,6 +337,14 @@ theorem rand_interval_mask_value : ∀ k : Nat, k < 64 →
     (2 ^ 64 - 1) / 2 ^ ((64 - k) % 64) = if k = 0 then 2 ^ 64 - 1 else 2 ^ k - 1 := mask_value
 example : ibzRandInterval 0 (2 ^ 64 - 1) [1, 2, 3, 4, 5, 6, 7, 8] = .ok (0x0807060504030201, []) ∧
     (randParams 0 (2 ^ 64 - 1)).lenBits % 64 = 0 := by decide
+
+/-- the mask is wide enough: EVERY value of [a, b] is produced by some byte stream (the little-endian bytes of t = r − a),
+    for every interval a ≤ b incl. widths whose bit length is a multiple of 64 — together with `rand_interval_range` the set
+    of possible outputs is exactly [a, b] -/
+theorem rand_interval_reaches_all (a b : Int) (t : Nat) (ht : (t : Int) ≤ b - a) :
+    ibzRandInterval a b (toBytesLE (randParams a b).lenBytes t) = .ok (a + t, []) :=
+  randInterval_reaches a b t ht
+example : ibzRandInterval 10 (10 + 2 ^ 64) (toBytesLE 9 (2 ^ 64)) = .ok (10 + 2 ^ 64, []) := by decide +kernel
 
 /-- `ibz_rand_interval_minm_m`: result in [−m, m] (0 ≤ m < 2^62) -/
 theorem rand_interval_minm_m_range (m : Int) (hm : 0 ≤ m ∧ m < 2 ^ 62) (stream : List Nat) (r : Int) (rest : List Nat)
@@ -662,6 +671,15 @@ theorem ker_mod_prime_complete (pn : Nat) (hp : pn.Prime) (rows cols : Nat) (mat
     ∃ ker, rightKerModPrime rows cols mat pn = .ok ker := by
   haveI := Fact.mk hp
   exact rightKerModPrime_complete pn rows cols mat v0 hv0 hker0 hline
+
+/-- converse: when a vector is returned, EVERY kernel vector modulo p is a multiple of it — so the routine returns 1
+    exactly when the kernel modulo p is one-dimensional, and then a generator of it -/
+theorem ker_mod_prime_spans (pn : Nat) (hp : pn.Prime) (rows cols : Nat) (mat : Mat) (ker : List Int)
+    (h : rightKerModPrime rows cols mat pn = .ok ker) (v : Nat → ZMod pn)
+    (hv : ∀ i < rows, ∑ s ∈ Finset.range cols, ((get mat i s : Int) : ZMod pn) * v s = 0) :
+    ∃ c : ZMod pn, ∀ s < cols, v s = c * ((ker.getD s 0 : Int) : ZMod pn) := by
+  haveI := Fact.mk hp
+  exact rightKerModPrime_line pn rows cols mat ker h v hv
 
 /-- the two instances used by the library -/
 theorem ker_4x4_mod_prime_sound (pn : Nat) (hp : pn.Prime) (mat : Mat) (ker : List Int)
